@@ -274,13 +274,6 @@ fn parse_ident(text: &str) -> IResult<&str, String> {
     let (rest, dash) = opt(tag("-"))(rest)?;
     if dash.is_some() {
         name.push('-');
-        // A custom property name: `--` followed by any name characters.
-        if let Some(rest) = rest.strip_prefix('-') {
-            name.push('-');
-            let (rest, chars) = many0(nmchar)(rest)?;
-            name.extend(chars);
-            return Ok((rest, name.into_iter().collect()));
-        }
     }
 
     let (rest, start) = nmstart(rest)?;
@@ -299,6 +292,13 @@ fn parse_identstring(text: &str) -> IResult<&str, String> {
 }
 
 fn parse_property_name(text: &str) -> IResult<&str, PropertyName> {
+    // A custom property name: `--` followed by any name characters.
+    let (rest, _) = skip_optional_whitespace(text)?;
+    if let Some(rest) = rest.strip_prefix("--") {
+        let (rest, chars) = many0(nmchar)(rest)?;
+        let name: String = "--".chars().chain(chars).collect();
+        return Ok((rest, PropertyName(name)));
+    }
     parse_ident(text).map(|(r, s)| (r, PropertyName(s)))
 }
 
